@@ -192,6 +192,8 @@ impl Doc {
     /// Render doc into html page, used by documentation sample generator
     #[must_use]
     pub fn render_html(&self, full: bool, include_css: bool) -> String {
+        #[cfg(bpaf_verif)]
+        self.verif_capture();
         let mut res = String::new();
         let mut byte_pos = 0;
         let mut cur_style = Styles::default();
@@ -310,6 +312,8 @@ impl Doc {
     /// Render doc into markdown document, used by documentation sample generator
     #[must_use]
     pub fn render_markdown(&self, full: bool) -> String {
+        #[cfg(bpaf_verif)]
+        self.verif_capture();
         let mut res = String::new();
         let mut byte_pos = 0;
         let mut cur_style = Styles::default();
